@@ -97,8 +97,42 @@ def contributions(ctx, prog, body, proto, reads=None):
     return cnt, acc, sites, unknown
 
 
+def k_frozen(ctx, prog):
+    """K-FROZEN: a header's checksum is computed once, when the builder makes it; serialize() writes the stored value.
+    So nothing outside the codec module may rewrite a field of a built TcpHeader / UdpHeader that the checksum covers -
+    the segment would go out with a checksum that no longer verifies."""
+    n = 0
+    for adt, mod, allowed in (("tcp_parsing::TcpHeader", "elvis_core::protocols::tcp::tcp_parsing", ()),
+                              ("udp_parsing::UdpHeader", "elvis_core::protocols::udp::udp_parsing", ())):
+        # (an Ipv4Header is re-encoded through Ipv4Header::serialize -> builder, which recomputes its checksum: no rule)
+        for b in prog.bodies.values():
+            if b.key.startswith(mod) or "::tests::" in b.key or b.key.rsplit("::", 1)[-1].startswith("test_"):
+                continue
+            for bb, st in K.assigns_to_field(b, adt) + K.mut_borrows_of_field(b, adt):
+                fld = F.place_fields(st[1] if st[0] == "a" and st[2][0] != "ref" else st[2][2])
+                name = fld[-1][1] if fld else "?"
+                if name == "checksum":
+                    continue
+                # only headers on their way out matter: those held by the retransmission queue (Outgoing.retransmit /
+                # Transmit.segment); a received header may be edited freely
+                pl = st[1] if st[0] == "a" and st[2][0] != "ref" else st[2][2]
+                owners = [o for o, _f in F.place_fields(pl)]
+                base_o = dep.origins(b, ["cp", [pl[0], []]], at=K.at_stmt(b, bb, st))
+                outgoing = any(o.endswith("outgoing::Transmit") or o.endswith("outgoing::Outgoing") for o in owners) or \
+                    dep.has_field(base_o, "Outgoing", "retransmit") or dep.has_field(base_o, "Transmit", "segment")
+                if not outgoing:
+                    continue
+                n += 1
+                ok = any(b.key.startswith(a) for a in allowed)
+                (ctx.ok if ok else ctx.bad)("K-FROZEN", "K-FROZEN:%s.%s@%s" % (adt.rsplit("::", 1)[-1], name, b.key), st[3],
+                    "re-encoded through serialize(), which recomputes the checksum" if ok else
+                    "%s rewrites %s.%s of a header that was already built: its stored checksum is not recomputed, so the segment is emitted with a checksum that does not verify" % (b.pretty, adt.rsplit("::", 1)[-1], name))
+    ctx.ok("K-FROZEN", "K-FROZEN:scan", None, "%d writes of built headers outside the codec modules examined" % n)
+
+
 def run(ctx):
     prog = ctx.prog("checksum")
+    k_frozen(ctx, prog)
     pairs = {
         "ipv4": (prog.method("Ipv4HeaderBuilder", "build"), prog.method("Ipv4Header", "from_bytes")),
         "udp": (prog.one("protocols::udp::udp_parsing::build_udp_header"), prog.method("UdpHeader", "from_bytes_ipv4")),
